@@ -49,3 +49,48 @@ Theorem C01_string_operator_sem : forall K v o x, str_op K v = (o, Ok x) ->
   forall s, wild_match (pattern o (items x)) s = wild_match (items v) s.
 Proof. exact str_op_sem. Qed.
 Print Assumptions C01_string_operator_sem.
+
+(* ---- leaves: rendering of one detection-item leaf by the verification backend, read back ---- *)
+From PS Require Import Base.Chars Model.FieldName Model.Leaf Spec.Atom Proofs.LeafP.
+(* For every flag set of the verification backend (always-quoting), every field name, every value kind
+   and both template contexts: the text rendered for the leaf, read by the target language's own rules
+   (delimiters, quoted/escaped field names, operator keywords, quoted string literals, escaped regular
+   expressions), yields an atom that names the same field and the same predicate with the requested
+   polarity - or, for value kinds without negated template, the text is the positive one and the caller
+   has to negate (Model/Backend.v: negatable). *)
+Theorem C01_leaf_faithful : forall extra k neg f fo pm v txt,
+  wok extra = true -> k_qpat k = None ->
+  fo_ok (W_of extra) f fo = true -> val_ok (W_of extra) f v = true ->
+  render_leaf (vb k) neg f fo pm v = Ok txt ->
+  exists a, atom_decode (W_of extra) txt = Some a /\
+    (acceptb neg f v a = true \/ (neg = true /\ render_leaf (vb k) false f fo pm v = Ok txt)).
+Proof. intros extra k neg f fo pm v txt Hw Hq. exact (leaf_faithful (W_of extra) (Wspec_W_of extra Hw) k Hq neg f fo pm v txt). Qed.
+Print Assumptions C01_leaf_faithful.
+(* values without a field (keywords): strings, numbers, regular expressions *)
+Theorem C01_leaf_unbound_faithful : forall extra k pm v txt,
+  wok extra = true -> k_qpat k = None -> val_ok (W_of extra) [c_us] v = true ->
+  (match v with LStr cased _ => cased = false | _ => True end) ->
+  render_val (vb k) pm v = Ok txt ->
+  exists a, atom_decode (W_of extra) txt = Some a /\ acceptb false [c_us] v a = true.
+Proof. intros extra k pm v txt Hw Hq. exact (leaf_unbound_faithful (W_of extra) (Wspec_W_of extra Hw) k Hq pm v txt). Qed.
+Print Assumptions C01_leaf_unbound_faithful.
+(* an accepted string atom matches exactly the subjects the source pattern matches, with the source's
+   case sensitivity and the requested polarity *)
+Theorem C01_leaf_string_meaning : forall neg f cased sv a c op l,
+  acceptb neg f (LStr cased sv) a = true -> a_pred a = AStr c op l ->
+  a_field a = f /\ c = cased /\ a_neg a = neg /\
+  forall subj, wild_match (apattern op l) subj = wild_match (items sv) subj.
+Proof. exact accepted_string_meaning. Qed.
+Print Assumptions C01_leaf_string_meaning.
+(* FULL STATEMENT (false of the faithful model): C01_leaf_faithful without the premise val_ok for CIDR
+   values, and C01_leaf_unbound_faithful for case-sensitive keywords. *)
+Theorem C01_leaf_cidr_raw_field_refuted : exists f fo v txt,
+  render_leaf (vb k_all) false f fo (fun _ => false) v = Ok txt /\
+  exists a, atom_decode (W_of []) txt = Some a /\ acceptb false f v a = false.
+Proof. exact cidr_raw_field_refuted. Qed.
+Print Assumptions C01_leaf_cidr_raw_field_refuted.
+Theorem C01_leaf_unbound_cased_refuted : exists sv txt,
+  render_val (vb k_all) false (LStr true sv) = Ok txt /\
+  exists a, atom_decode (W_of []) txt = Some a /\ acceptb false [c_us] (LStr true sv) a = false.
+Proof. exact unbound_cased_refuted. Qed.
+Print Assumptions C01_leaf_unbound_cased_refuted.
